@@ -19,6 +19,11 @@ def swarm(rnd, kinds=("drop", "dup", "delay", "reorder"), fault_free=0.15, heavy
     return cfg
 
 
+def active(cfg):
+    """True when the configuration injects any network fault at all (an all-zero swarm configuration does not)."""
+    return any((cfg or {}).get(k) for k in ("p_drop", "p_dup", "p_delay", "p_reorder", "p_bounce", "p_corrupt"))
+
+
 def fate_gen(cfg):
     if not any(cfg.get(k) for k in ("p_drop", "p_dup", "p_delay", "p_reorder", "p_bounce", "p_corrupt")):
         return None
